@@ -20,10 +20,16 @@ def program(rng, nops, uni):
         else:
             pairs = ",".join("[%d,%d]" % (rng.randrange(uni), rng.randrange(uni)) for _ in range(rng.randrange(5)))
             sc.append("%s %d %d [%s]" % (rng.choice(["fromkeys", "fromvalues"]), h, k, pairs))
+    nilset = None
+    if rng.random() < 0.3:
+        # the zero value of maps.Set (nil map): only ever a receiver of non-mutating methods or an argument
+        nilset = fresh(); kinds[nilset] = 0; sc.append("new %d 2" % nilset)
     for _ in range(nops):
         hs = list(kinds)
         h = rng.choice(hs); g = rng.choice(hs)
         r = rng.random()
+        if h == nilset and r < 0.37: r = 0.9 if len(kinds) < 6 else 0.6   # never Add/Remove on the nil set: derive new sets from it instead
+        if h == nilset and 0.72 <= r < 0.78: r = 0.6
         if r < 0.22: sc.append("add %d %d" % (h, rng.randrange(uni)))
         elif r < 0.37: sc.append("remove %d %d" % (h, rng.randrange(uni)))
         elif r < 0.45: sc.append("has %d %d" % (h, rng.randrange(uni)))
